@@ -36,3 +36,20 @@ C01_UNDECIDED_SINKS = {
     "stdnum.us.tin|validate|returns empty-str": _US,
     "stdnum.isil|validate|returns empty-str": 'emptiness is excluded by the registry lookup of the agency prefix (an empty agency is unknown), not by a gate on the string',
 }
+
+# C15: formats whose own alphabet contains national letters (stated by the property)
+C15_NATIONAL = {
+    'stdnum.de.handelsregisternummer': 'ÄÖÜäöüßé',
+    'stdnum.mx.rfc': 'Ñ',
+    'stdnum.es.referenciacatastral': 'Ñ',
+}
+C15_GENERIC = ['stdnum.luhn', 'stdnum.verhoeff', 'stdnum.damm', 'stdnum.iso7064.mod_11_2', 'stdnum.iso7064.mod_11_10', 'stdnum.iso7064.mod_37_2',
+               'stdnum.iso7064.mod_37_36', 'stdnum.iso7064.mod_97_10']
+C15_UNDECIDED = {
+    'stdnum.us.atin': _US, 'stdnum.us.ein': _US, 'stdnum.us.itin': _US, 'stdnum.us.ssn': _US, 'stdnum.us.tin': _US,
+    'stdnum.eu.vat': 'the result is cc + module.validate(number) where the prefix cc comes from the cleaned input; that it equals the ASCII country code '
+                     'follows from the member-state module accepting the remainder, which is not a character-class fact',
+    'stdnum.eu.nace': 'single-letter codes pass isalpha() and are then looked up in the registry, whose entries are ASCII; the lookup is not modelled per character',
+    'stdnum.de.handelsregisternummer': 'free-text court name matched against a table of court names (national letters allowed by the property)',
+    'stdnum.gs1_128': 'values of application identifiers are re-encoded from decoded Python objects (dates, decimals); the element string is rebuilt',
+}
